@@ -215,3 +215,13 @@ def configs(tier, seed):
             ids.add(c["id"])
             res.append(c)
     return res
+
+
+def extra_phases(tier, seed, results):
+    """CrossHair (z3 underneath) on the integer shape helpers with SYMBOLIC sizes"""
+    from symsig import chx
+    viol, inc, summary, samples = chx.evaluate("ch/shapes_c09.py", per_condition_timeout=150 if tier == "quick" else 400)
+    return {"violations": viol, "inconclusive": inc, "summary": {"crosshair ch/shapes_c09.py": summary}, "samples": [], "evaluations": summary["contracts"],
+            "distinct_nontrivial": summary["contracts"],
+            "crosshair": {"module": "ch/shapes_c09.py", "bounds": "symbolic sizes within the ranges stated in each contract's pre-condition", "verdicts": summary["verdicts"],
+                          "contracts": samples}}
